@@ -143,7 +143,9 @@ CLAIMED = {
  "C13": dict(text="Theorems over any field of characteristic 0: the 16 conversion functions (re-translated from generic/_utils.py on every run) are mutual inverses and equal the documented "
                   "formulas; dt*symbol_{L,a}(k) = symbol_{1,alpha}(k) at every mode for every coefficient list; rescaling invariance of the groups; every ETD tableau depends on (h,N) only "
                   "through h*N; the linear symbol of each concrete stepper equals the generic symbol with the equivalent coefficient list (D<=3). The hand-written symbol model is compared with "
-                  "the real _build_linear_operator of every class at every stored mode in exact rational arithmetic.",
+                  "the real _build_linear_operator of every class at every stored mode in exact rational arithmetic. The super().__init__ chains of all Normalized* / Difficulty* constructors are "
+                  "re-translated from the source on every run (harness/translate/wiring.py, closed over stepper/generic) and proved to be: Normalized = General on the unit domain with unit step, "
+                  "Difficulty = Normalized after the extract_* conversion, simple difficulty = `order` zeros then the value.",
              note="The scaling of the built-in single-channel convection and gradient-norm terms with 1/L (beta_1 = b dt/L, beta_2 = b dt/L^2) is proved at term level (Nonlin/Scales.v) and at tableau level (h*N); the multi-channel and vorticity forms are checked on the real code by the witness "
                   "(general vs normalized vs difficulty steppers, rescalings, orders 0-4). Empty-tuple IndexError of reduce/extract is totalised in the model.",
              technique="Rocq proof (field identities, list induction) on AST-translated conversion functions + exact-rational symbol correspondence", design="§4 C13"),
